@@ -310,10 +310,27 @@ pub fn vec_op<'b, P: Pair>(ctx: &mut Ctx, bump: &'b Bump, v: &mut VSlot<'b, P::A
             let xs2 = xs.clone();
             let (lo, hi) = hint_for(b >> 1, k);
             let lying = b & 0x60 == 0x60;
+            // one extend in eight is fed by an iterator that itself allocates in the same arena between the items (a parser
+            // interning names while it collects them): the vector must cope with its buffer no longer being the newest
+            // allocation, and what the iterator allocated must stay intact and outside the vector's buffer
+            let allocating = !lying && b & 0x1c == 0x1c;
+            let side: std::cell::Cell<[(usize, usize); 12]> = std::cell::Cell::new([(0, 0); 12]);
+            let nside = std::cell::Cell::new(0usize);
             ctx.both(
-                &format!("extend({k} items, size_hint ({lo}, {hi:?}){})", if lying { " as reported by the iterator" } else { "" }),
+                &format!("extend({k} items, size_hint ({lo}, {hi:?}){}{})", if lying { " as reported by the iterator" } else { "" }, if allocating { ", the iterator allocates in the arena" } else { "" }),
                 || {
-                    let it = xs.iter().map(|&x| P::A::make(x));
+                    let it = xs.iter().enumerate().map(|(j, &x)| {
+                        if allocating {
+                            let len = 5 + 3 * j;
+                            let p = bump.alloc_layout(std::alloc::Layout::from_size_align(len, 1 << (j % 4)).unwrap()).as_ptr();
+                            unsafe { std::ptr::write_bytes(p, 0xA0 + j as u8, len) };
+                            let mut sd = side.get();
+                            sd[j] = (p as usize, len);
+                            side.set(sd);
+                            nside.set(j + 1);
+                        }
+                        P::A::make(x)
+                    });
                     if lying {
                         s.extend(Hinted { it, lo, hi })
                     } else if inexact {
@@ -333,6 +350,19 @@ pub fn vec_op<'b, P: Pair>(ctx: &mut Ctx, bump: &'b Bump, v: &mut VSlot<'b, P::A
                     }
                 },
             );
+            if allocating {
+                let buf = (s.as_ptr() as usize, s.capacity() * std::mem::size_of::<P::A>());
+                for j in 0..nside.get() {
+                    let (p, len) = side.get()[j];
+                    let bytes = unsafe { std::slice::from_raw_parts(p as *const u8, len) };
+                    if bytes.iter().any(|&x| x != 0xA0 + j as u8) {
+                        ctx.v("C13", format!("extend fed by an iterator that allocates in the same arena: the block the iterator allocated at item {j} ({len} bytes) was overwritten"));
+                    }
+                    if buf.1 > 0 && p < buf.0 + buf.1 && buf.0 < p + len {
+                        ctx.v("C13", format!("extend fed by an iterator that allocates in the same arena: the vector's buffer ({:#x}, {} bytes) overlaps the block the iterator allocated at item {j} ({p:#x}, {len} bytes)", buf.0, buf.1));
+                    }
+                }
+            }
         }
         9 => {
             let k = (a % 12) as usize;
